@@ -38,6 +38,20 @@ def scrub(p, live):
     return p
 
 
+def nested_gone(p, live, depth=0):
+    """The property does not say what becomes of a reference to an instance that was left out.  The reader unsets it
+    where the attribute (or aggregate element) is an entity reference; inside an aggregate of aggregates the element is
+    kept as text.  Both are accepted there: a reference to a deleted instance and an unset element compare equal."""
+    k = p[0]
+    if k == "list":
+        return ("list", [nested_gone(x, live, depth + 1) for x in p[1]])
+    if depth >= 2 and (k == "null" or (k == "ref" and p[1] not in live)):
+        return ("gone",)
+    if k == "typed":
+        return ("typed", p[1], nested_gone(p[2], live, depth))
+    return p
+
+
 def main(tier, seed):
     res = Result(PID, tier, seed)
     try:
@@ -152,11 +166,11 @@ def main(tier, seed):
             exp_insts = []
             for i in order:
                 if i["id"] in liveset:
-                    parts = [(kw, [p21tok.norm_param(scrub(x, liveset)) for x in ps]) for kw, ps in i["parts"]]
+                    parts = [(kw, [p21tok.norm_param(nested_gone(scrub(x, liveset), liveset)) for x in ps]) for kw, ps in i["parts"]]
                     exp_insts.append((i["id"], states[i["id"]], sorted(parts) if i["complex"] else parts))
             got_insts = []
             for i in p2["data"]:
-                parts = [(kw, [p21tok.norm_param(x) for x in ps]) for kw, ps in i["parts"]]
+                parts = [(kw, [p21tok.norm_param(nested_gone(x, liveset)) for x in ps]) for kw, ps in i["parts"]]
                 got_insts.append((i["id"], i["state"], sorted(parts) if i["complex"] else parts))
             if exp_insts != got_insts:
                 for x, y in zip(exp_insts, got_insts):
